@@ -7,6 +7,7 @@ package annotation
 import (
 	"encoding/binary"
 	"fmt"
+	"strings"
 
 	"github.com/janelia-flyem/dvid/datastore"
 	"github.com/janelia-flyem/dvid/dvid"
@@ -49,6 +50,10 @@ func (d *Data) DescribeTKeyClass(tkc storage.TKeyClass) string {
 func NewTagTKey(tag Tag) (storage.TKey, error) {
 	if len(tag) == 0 {
 		return nil, fmt.Errorf("empty tag not permitted")
+	}
+	// the tag is stored with a terminating zero byte, so it cannot hold one itself
+	if strings.IndexByte(string(tag), 0) >= 0 {
+		return nil, fmt.Errorf("tag %q holds a zero byte, which is not permitted", tag)
 	}
 	return storage.NewTKey(keyTag, append([]byte(tag), 0)), nil
 }
